@@ -16,9 +16,21 @@ expected is derived from that text by the small resolver below (tab splitting on
   * errors: a gfapy.Error from captured_path is demanded when the items are not contiguous under ANY reading
     (consecutive elements do not even share a segment name / no edge between two listed segments whatever the
     orientation), or when two different edges both join two listed segments in the required direction;
+  * reversing twice is the identity (the library compared with itself, so groups whose expected walk is doubtful
+    are covered too): a second document is built in which every reference `q+` / `q-` to a path inside an O group
+    is written `q~-` / `q~+`, q~ being a new group `O q~ q-`.  Under every reading of "nested paths inlined and
+    reversed when referenced with -" the two documents describe the same paths: each O group must give the same
+    walk in both, or an error in both, and each U group the same induced segments
+    (double-reversal-changes-outcome / -path / -induced-set);
   * induced sets of a U group: segments mentioned directly, through listed edges (both ends), through paths
     (captured segments) and nested sets; induced edges = every E line both of whose segments are in that set;
     induced_set = both; compared as sets.
+
+Generator: see RULE.  The shapes the walk construction distinguishes are drawn explicitly, not left to chance: the
+four combinations of end items of a path (end segment stated / left to its edge), the item that follows or precedes
+a nested reference (the junction segment stated again, the edge leaving it, the next segment with the edge left
+out), and in 30% of the cases a chain of paths each nesting the previous one (bare `p-`/`p+` references to
+references, up to depth 5) so that every combination of signs over two and three levels occurs.
 
 NOT CHECKED (doubtful, the property text does not settle it):
   * the direction of the walk of a path that consists of a single reversed edge item (`O o e1-`, DESIGN 7 #25),
@@ -38,8 +50,12 @@ from harness.props import _graphgen as G
 ID = "C17"
 RULE = ("GFA2 graphs of 2-5 segments and 1-8 edges (dovetails, containments, internals, parallel edges, the same "
         "adjacency written from the other strand, self-edges, a few unnamed edges) with 1-6 O/U groups: O items are "
-        "random walks with random elision of segments/edges, read forwards or backwards, 25% perturbed (flipped "
-        "sign, foreign item, shuffled), nested through p+/p- up to depth 4 with walk extension on either side; U "
+        "random walks with random elision of segments/edges (half of them with the kind of both end items, segment "
+        "or edge, drawn uniformly), read forwards or backwards, 25% perturbed (flipped sign, foreign item, shuffled), "
+        "nested through p+/p- with walk extension on either side whose first item is the restated junction segment, "
+        "the edge leaving it or the next segment; 30% of the cases are chains (each path nests the previous one with "
+        "probability 0.8, nesting depth up to 5); every case with a nested reference is also resolved with all "
+        "references reversed twice through alias groups; U "
         "items mix segments, edges, paths and sets; 35% of the groups are split over 2-3 lines (tags: disjoint, "
         "repeated-equal, contradictory); lines arrive in random order in 60% of the cases. Non-trivial: at least one "
         "group whose expectation is definite (walk, error or induced set).")
